@@ -172,9 +172,16 @@ impl Spec for HostileSpec {
 }
 
 pub fn hostile_spec(words: &[u32]) -> HostileSpec {
+    hostile_spec_with(words, false)
+}
+
+/// `fail_down`: the codec returns an error for every Down member it is asked
+/// to encode (the seeds are built with that codec too).
+pub fn hostile_spec_with(words: &[u32], fail_down: bool) -> HostileSpec {
     let me = id(A, 1).with(Renew::Next);
     let cfg = Cfg { notify_down: true, announce: Some((500, 1)), announce_down: Some((500, 2)), gossip: Some((200, 1)), max_packet: 1400, ..Cfg::default() };
-    let mut base = CoreSpec::new("c06-hostile", me, cfg.clone());
+    let mut base = CoreSpec::new(if fail_down { "c06-hostile-failing-codec" } else { "c06-hostile" }, me, cfg.clone());
+    base.codec.fail_down = fail_down;
     base.words = words.to_vec();
     base.mons.c07 = false;
     let cfgs = vec![
@@ -193,14 +200,30 @@ pub fn hostile_spec(words: &[u32]) -> HostileSpec {
     let mut sb = SeedBuilder::new(&base);
     sb.ev(Ev::Apply(vec![al(id(B, 0)), al(id(C, 0))], true));
     base.seed_hists.push(sb.done());
-    let mut sb = SeedBuilder::new(&base);
-    sb.ev(Ev::Apply(vec![al(id(B, 0)), al(id(C, 0))], true));
-    sb.fire(|t| matches!(t, TimerKey::ProbeRandomMember(_)));
-    base.seed_hists.push(sb.done());
+    // (the failing-codec exploration keeps to two seeds: quick-tier budget)
+    if !fail_down {
+        let mut sb = SeedBuilder::new(&base);
+        sb.ev(Ev::Apply(vec![al(id(B, 0)), al(id(C, 0))], true));
+        sb.fire(|t| matches!(t, TimerKey::ProbeRandomMember(_)));
+        base.seed_hists.push(sb.done());
+        let mut sb = SeedBuilder::new(&base);
+        sb.ev(Ev::Apply(vec![al(id(B, 0))], true));
+        sb.ev(Ev::Leave);
+        base.seed_hists.push(sb.done());
+    }
+    // the only peer is suspected, its timeout outstanding (its Down leaves the
+    // instance without anybody: the place where a failing call can leave the
+    // connection state and the member list out of step)
     let mut sb = SeedBuilder::new(&base);
     sb.ev(Ev::Apply(vec![al(id(B, 0))], true));
-    sb.ev(Ev::Leave);
+    sb.fire(|t| matches!(t, TimerKey::ProbeRandomMember(_)));
+    sb.fire(|t| matches!(t, TimerKey::SendIndirectProbe { .. }));
+    sb.fire(|t| matches!(t, TimerKey::ProbeRandomMember(_)));
     base.seed_hists.push(sb.done());
+    if fail_down {
+        // the remaining seeds need calls that succeed
+        return HostileSpec { base, emitted: Mutex::new(HashSet::new()) };
+    }
     // user error: the instance took over the identity of its only peer, which
     // is now an active member of its own list, and is mid-probe on it
     let mut sb = SeedBuilder::new(&base);
@@ -279,7 +302,7 @@ fn mutations(d: &[u8]) -> Vec<Vec<u8>> {
 
 /// Byte-level sweep against FixCodec instances (fixed / variable ids).
 fn byte_level_fix(datagrams: &[Vec<u8>], thorough: bool, var: bool) -> (u64, u64, Option<String>) {
-    let codec = FixCodec { var };
+    let codec = FixCodec { var, ..FixCodec::default() };
     let cfg = Cfg { notify_down: true, max_packet: 64, ..Cfg::default() };
     let handler = || {
         let mut h = TableHandler::new(InvMode::NewerVersion);
@@ -499,6 +522,10 @@ fn config_constructors(thorough: bool) -> (u64, Option<String>) {
 pub fn c06(tier: &str) -> Report {
     let th = tier == "thorough";
     let plain_pass = std::env::var("VERIF_PLAIN_PASS").is_ok();
+    // the plain-profile pass (no debug assertions) runs as a child process
+    // AFTER this one (running both at once was tried: two 16-thread
+    // explorations side by side take longer than one after the other)
+    let mut plain_child: Option<std::process::Child> = None;
     let mut rep = Report::new("C06", tier, "model_checking");
     let words = calibrated(&mut rep, 4, 3);
     // (a) hostile exploration
@@ -530,11 +557,28 @@ pub fn c06(tier: &str) -> Report {
         };
         rep.violate(&sig, format!("{} [after: {}]", f.viol.what, shown.join(" ; ")), json!({"engine": "e1", "property": "C06", "tier": tier, "variant": "c06-hostile", "history": f.history, "shown": shown}));
     }
+    // (a2) the same exploration with a codec that fails (an error, never a
+    // panic) on every Down member it is asked to encode: calls may report
+    // the error, nothing may panic then or afterwards
+    if !plain_pass {
+        let faulty = hostile_spec_with(&words, true);
+        let lim2 = if th { Limits { max_depth: 4, seed_depth: 4, max_states: 3_000_000, max_wall_s: 300.0 } } else { Limits { max_depth: 2, seed_depth: 2, max_states: 1_000_000, max_wall_s: 60.0 } };
+        let (st2, found2) = explore(&faulty, &lim2);
+        rep.states += st2.states;
+        rep.transitions += st2.transitions;
+        let others: std::collections::BTreeSet<String> = found2.iter().filter(|f| f.viol.signature != "panic").map(|f| f.viol.signature.clone()).collect();
+        rep.set("failing_codec_exploration", json!({"states": st2.states, "transitions": st2.transitions, "depth_completed": st2.depth_completed, "cap_hit": st2.capped, "non_panic_findings_ignored_here": others}));
+        for f in found2.iter().filter(|f| f.viol.signature == "panic").take(10) {
+            let shown: Vec<String> = f.history.iter().map(|s| format!("{}  rng={:?}", show_ev(&faulty.base.codec, &s.ev), s.script)).collect();
+            let site = f.viol.what.rsplit(" at ").next().unwrap_or("?").to_string();
+            rep.violate(&format!("c06:panic-after-codec-error:{site}"), format!("{} [codec fails on Down members; after: {}]", f.viol.what, shown.join(" ; ")), json!({"engine": "e1", "property": "C06", "tier": tier, "variant": "c06-hostile-failing-codec", "history": f.history, "shown": shown}));
+        }
+    }
     let emitted: Vec<Vec<u8>> = {
         let g = spec.emitted.lock().unwrap();
         let mut v: Vec<Vec<u8>> = g.iter().cloned().collect();
         v.sort();
-        v.truncate(if th { 20_000 } else { 2_500 });
+        v.truncate(if th { 20_000 } else if plain_pass { 800 } else { 2_500 });
         v
     };
     // (b) byte level
@@ -542,6 +586,10 @@ pub fn c06(tier: &str) -> Report {
     let mut evals = 0u64;
     let mut distinct = 0u64;
     for var in [false, true] {
+        if var && plain_pass && !th {
+            // quick tier: the plain build repeats the fixed-length format only
+            continue;
+        }
         let (e, d, bad) = byte_level_fix(&emitted, th, var);
         evals += e;
         distinct += d;
@@ -627,7 +675,11 @@ pub fn c06(tier: &str) -> Report {
         let plain = exe.parent().and_then(|p| p.parent()).map(|p| p.join("plain").join("verif"));
         match plain {
             Some(p) if p.exists() => {
-                let o = std::process::Command::new(&p).args(["check", "C06", "--tier", tier]).env("VERIF_PLAIN_PASS", "1").output();
+                // (started at the beginning of this check, runs alongside it)
+                let o = match plain_child.take() {
+                    Some(c) => c.wait_with_output(),
+                    None => std::process::Command::new(&p).args(["check", "C06", "--tier", tier]).env("VERIF_PLAIN_PASS", "1").output(),
+                };
                 match o {
                     Ok(o) => {
                         let out = String::from_utf8_lossy(&o.stdout).to_string();
